@@ -294,8 +294,22 @@ size_t varintFloatEncode(uint8_t *output, const double *values,
             }
         }
 
-        /* Write base exponent (min) only if there are normal values */
-        if (normal_exp_count > 0) {
+        if (normal_exp_count > 0 && max_exp - min_exp > UINT8_MAX) {
+            /* Exponent spread does not fit the one-byte deltas of this layout:
+             * store the exponents independently and say so in the header */
+            output[3] = (uint8_t)VARINT_FLOAT_MODE_INDEPENDENT;
+            for (size_t i = 0; i < count; i++) {
+                if (!special_flags[i]) {
+                    varintWidth width;
+                    uint64_t zigzag = varintDeltaZigZag(exponents[i]);
+                    varintExternalUnsignedEncoding(zigzag, width);
+                    *p++ = (uint8_t)width;
+                    varintExternalPutFixedWidth(p, zigzag, width);
+                    p += width;
+                }
+            }
+        } else if (normal_exp_count > 0) {
+            /* Write base exponent (min) only if there are normal values */
             const uint64_t zigzag = varintDeltaZigZag(min_exp);
             varintWidth width;
             varintExternalUnsignedEncoding(zigzag, width);
